@@ -745,3 +745,32 @@ func ReturnValues(ret *ssa.Return) []ssa.Value {
 func IsRecoverBlock(b *ssa.BasicBlock) bool {
 	return b.Parent().Recover == b
 }
+
+// CallersClosureWithin is CallersClosure restricted to edges whose caller satisfies keep
+// (used to stop reachability from leaking through the standard library's
+// interface dispatch, where the call graph is very coarse).
+func (p *Prog) CallersClosureWithin(targets map[*ssa.Function]bool, keep func(*ssa.Function) bool) map[*ssa.Function]bool {
+	cg := p.CG()
+	seen := map[*ssa.Function]bool{}
+	var work []*ssa.Function
+	for f := range targets {
+		seen[f] = true
+		work = append(work, f)
+	}
+	for len(work) > 0 {
+		f := work[len(work)-1]
+		work = work[:len(work)-1]
+		n := cg.Nodes[f]
+		if n == nil {
+			continue
+		}
+		for _, e := range n.In {
+			c := e.Caller.Func
+			if !seen[c] && keep(c) {
+				seen[c] = true
+				work = append(work, c)
+			}
+		}
+	}
+	return seen
+}
